@@ -323,6 +323,26 @@ func init() {
 			v := u.genMsgCapped(cr, ti, genOpts{depth: 3, unknownOK: true})
 			u.msgCase(out, ti, v, buildOpts{emptyNonNil: cr.intn(4) == 0})
 		}
+		// the four-byte length class: a string/bytes field of 2 MiB (+-1) directly in a message and inside a sub-message, for up to
+		// three types that have one (implementation against the reference implementation; the model skips these rows)
+		huge := 0
+		for _, nested := range []bool{true, false} {
+			for _, ti := range types {
+				if huge >= 3 || (!nested && huge >= 3) {
+					break
+				}
+				if v := u.hugeValue(ti, 1<<21-1+huge, nested); v != nil {
+					u.msgCase(out, ti, v, buildOpts{})
+					huge++
+					if !nested {
+						break
+					}
+				}
+				if nested && huge >= 2 {
+					break
+				}
+			}
+		}
 		return nil
 	})
 	// msg-one <typekey> <val>
